@@ -369,6 +369,25 @@ impl ZipOffsetBlobStore {
         })
     }
 
+    /// Assemble a store from the parts accumulated by `ZipOffsetBlobStoreBuilder`
+    pub(crate) fn from_parts(
+        config: ZipOffsetBlobStoreConfig,
+        content: FastVec<u8>,
+        offsets: SortedUintVec,
+        stats: CompressionStats,
+        pool: Option<SecureMemoryPool>,
+    ) -> Result<Self> {
+        config.validate()?;
+        Ok(Self {
+            content,
+            offsets,
+            config,
+            stats,
+            pool,
+            offset_cache: None,
+        })
+    }
+
     /// Load ZipOffsetBlobStore from file
     pub fn load_from_file<P: AsRef<Path>>(path: P) -> Result<Self> {
         let mut file = std::fs::File::open(path)?;
@@ -500,7 +519,7 @@ impl ZipOffsetBlobStore {
         &self,
         id: RecordId,
     ) -> Result<Vec<u8>> {
-        if id as usize >= self.offsets.len() {
+        if id as usize >= self.len() {
             return Err(ZiporaError::invalid_data("record ID out of bounds"));
         }
 
@@ -769,7 +788,7 @@ impl BlobStore for ZipOffsetBlobStore {
     }
 
     fn contains(&self, id: RecordId) -> bool {
-        (id as usize) < self.offsets.len()
+        (id as usize) < self.len()
     }
 
     fn size(&self, id: RecordId) -> Result<Option<usize>> {
@@ -790,7 +809,8 @@ impl BlobStore for ZipOffsetBlobStore {
     }
 
     fn len(&self) -> usize {
-        self.offsets.len()
+        // the offset index holds one start offset per record plus the end offset of the last one
+        self.offsets.len().saturating_sub(1)
     }
 
     fn flush(&mut self) -> Result<()> {
